@@ -136,7 +136,7 @@ def group_unicode(root, repo, pid, P, tier):
     except Exception as e:   # build problem, timeout
         out, st, reason = str(e), "undecided", str(e)
     final.append(dict(harness="names_resolve_and_agree", status=st, reason=reason or out[-300:], output=out[-2000:], complete=False,
-                      what="every advertised property name is listed, resolves through unicode::by_name and agrees with its function on every scalar value",
+                      what="every advertised property name is listed, resolves through unicode::by_name and agrees with its function on every scalar value; the grammar validator accepts it as a built-in; pest_vm and a derive-generated parser resolve it to the same function (compared at every range edge and on a stride sample)",
                       bound="exhaustive native enumeration (names x 1,112,064 scalars) on the real code - an enumerative stand-in, not a deductive proof",
                       wall_s=time.time() - t0, cmd="cargo run --release (out/unicode_search) -- --names"))
     return final
@@ -184,31 +184,51 @@ def _group_inmod(key):
     return g
 
 
-def group_lines_enum(root, repo, pid, P, tier):
-    """Native enumeration over the real crate (replay/src/bin/lines_search.rs): an enumerative stand-in for the clauses no
-    contract reaches (error rendering, LineIndex over a consumed prefix) and a cross-check of the contracted ones."""
-    from . import replay as rp
-    t0 = time.time()
-    maxlen = "6" if tier == "thorough" else "5"
-    ok, log = rp.build_searchers(root, repo, ["lines"])
-    if not ok:
-        st, reason, out = "undecided", "searcher build failed", log
-    else:
-        try:
-            p = subprocess.run([rp.searcher_bin(root, "lines"), "--search", pid], capture_output=True, text=True, timeout=1500,
-                               env=dict(os.environ, VX_LINES_MAXLEN=maxlen))
-            out = p.stdout + p.stderr
-            st = "ok" if "NO-WITNESS" in p.stdout else ("failed" if "WITNESS" in p.stdout else "undecided")
-            reason = ""
-            for line in p.stdout.split("\n"):
-                if line.startswith("WITNESS "):
-                    reason = line[8:]
-        except subprocess.TimeoutExpired:
-            st, reason, out = "undecided", "timeout", ""
-    return [dict(harness="lines_enumeration", kind="enum", status=st, reason=reason or out[-300:], output=out[-2000:], complete=False,
-                 what="positions, spans, pairs (builder / into_inner / flatten / parse), errors and the rendered marker agree with the definition at every offset and offset pair",
-                 bound="every text of <= %s characters over {a, \\n, \\r, é, €, \\t} - exhaustive native enumeration on the real code, not a deductive proof" % maxlen,
-                 wall_s=time.time() - t0, cmd="out/target-replay/release/lines_search --search C10 (VX_LINES_MAXLEN=%s)" % maxlen)]
+def _group_enum(searcher, harness, what, bound, env_quick=None, env_thorough=None):
+    """Native enumeration over the real crate (replay/src/bin/<searcher>_search.rs): an enumerative stand-in for clauses no
+    contract reaches and a cross-check of the contracted ones. Reported under bounded_checks, never counted as proved."""
+    def g(root, repo, pid, P, tier):
+        from . import replay as rp
+        t0 = time.time()
+        env = dict(os.environ)
+        env.update((env_thorough if tier == "thorough" else env_quick) or {})
+        ok, log = rp.build_searchers(root, repo, [searcher])
+        if not ok:
+            st, reason, out = "undecided", "searcher build failed", log
+        else:
+            try:
+                p = subprocess.run([rp.searcher_bin(root, searcher), "--search", pid], capture_output=True, text=True, timeout=1500, env=env)
+                out = p.stdout + p.stderr
+                st = "ok" if "NO-WITNESS" in p.stdout else ("failed" if "WITNESS" in p.stdout else "undecided")
+                reason = ""
+                for line in p.stdout.split("\n"):
+                    if line.startswith("WITNESS "):
+                        reason = line[8:]
+                    elif line.startswith("NO-WITNESS "):
+                        reason = line[11:]
+            except subprocess.TimeoutExpired:
+                st, reason, out = "undecided", "timeout", ""
+        b = bound(tier) if callable(bound) else bound
+        return [dict(harness=harness, kind="enum", status=st, reason=reason or out[-300:], output=out[-2000:], complete=False, what=what,
+                     bound=b + " - exhaustive native enumeration on the real code, not a deductive proof",
+                     wall_s=time.time() - t0, cmd="out/target-replay/release/%s_search --search %s" % (searcher, pid))]
+    return g
 
 
-GROUPS = {"unicode": group_unicode, "inmod_c03": _group_inmod("c03"), "inmod_c10": _group_inmod("c10"), "lines_enum": group_lines_enum}
+group_lines_enum = _group_enum(
+    "lines", "lines_enumeration",
+    "positions, spans, pairs (builder / into_inner / flatten / parse), errors and the rendered marker agree with the definition at every offset and offset pair",
+    lambda tier: "every text of <= %s characters over {a, \\n, \\r, é, €, \\t}" % ("6" if tier == "thorough" else "5"),
+    env_quick=dict(VX_LINES_MAXLEN="5"), env_thorough=dict(VX_LINES_MAXLEN="6"))
+group_pairs_enum = _group_enum(
+    "pairs", "pairs_enumeration",
+    "every view of a PairsBuilder tree agrees with the tree: walks in three interleavings with len/size_hint, peek, tokens, flatten (both ways), single, into_inner, "
+    "and the node-tag views (as_node_tag, find_tagged = pre-order filter, find_first_tagged = its first element) that are iterator-adaptor code outside every contract",
+    "all forests of <= 3 nodes over the 4 boundaries of a 3-character input x every assignment of tags {none, t, u}")
+group_peek_enum = _group_enum(
+    "peek", "peek_slice_enumeration",
+    "stack_match_peek_slice / stack_match_peek / stack_match_pop agree with the direct reading (index normalisation, bottom-to-top / top-to-bottom concatenation, no movement on failure)",
+    "stacks of <= 3 literals over {'', a, b, ab, é} x inputs of <= 3 characters over {a, b, é} x every start offset x start in -4..=4 x end in {None} U -4..=4 x both directions")
+
+
+GROUPS = {"unicode": group_unicode, "inmod_c03": _group_inmod("c03"), "inmod_c10": _group_inmod("c10"), "lines_enum": group_lines_enum, "pairs_enum": group_pairs_enum, "peek_enum": group_peek_enum}
